@@ -589,6 +589,10 @@ def mg_compare(sc, res, mval):
         d = per.setdefault(o, {"acts": [], "fs": None})
         d["acts"] += [(a[0], list(a[1])) for a in acts if a[0] not in (1, 2)]
         d["fs"] = fs
+    rel = list(res.get("init_rel", [])) + [n for st in res["steps"] for n in st.get("rel", [])]
+    if rel:
+        return ("a name handed to the tracker is not an absolute path (the model's names are absolute: the tracker "
+                "resolves them with its own cwd): %r" % rel[0])
     init = mg_real_actions(res.get("init_actions", []))
     if mg_norm(init) != mg_norm(per[-1]["acts"]):
         return "constructor: model %s, implementation %s" % (per[-1]["acts"], init)
@@ -676,13 +680,15 @@ def gen_manager(rng):
             evs.append({"new": ["new", c], "mkdir": ["mkdir", c], "reg": ["reg", c, f], "write": ["write", c, f],
                         "unl": ["unl", c, f], "clean": ["clean", c, rng.random() < 0.25, rng.random() < 0.4],
                         "freeze": ["freeze"], "thaw": ["thaw"]}[k])
-    return {"events": evs, "end": "kill" if rng.random() < 0.75 else "exit"}
+    return {"events": evs, "end": "kill" if rng.random() < 0.75 else "exit",
+            # how temp_folder is spelled, and whether the tracker was started under another cwd
+            "root": rng.choice(["abs", "abs", "rel", "relsub", "env", "envabs"]), "chdir": rng.random() < 0.5}
 
 
 def shrink_manager(ctx, sc):
     cur = sc
     for _ in range(5):
-        cands = [{"events": cur["events"][:i] + cur["events"][i + 1:], "end": cur["end"]} for i in range(len(cur["events"]))]
+        cands = [dict(cur, events=cur["events"][:i] + cur["events"][i + 1:]) for i in range(len(cur["events"]))]
         if not cands:
             break
         res = run_impl_cases(ctx, cands, script="c20_manager.py")
@@ -728,7 +734,8 @@ def run_manager_stage(ctx, quick):
     stats["disagreements"] = len(dis)
     for bad, sc in bad_cases[:2]:
         small = shrink_manager(ctx, sc)
-        ctx.violation("TemporaryResourcesManager: " + bad, {"kind": "manager", "scenario": small}, True)
+        b2 = judge_manager(small, run_impl_cases(ctx, [small], script="c20_manager.py", workers=1)[0])[0]
+        ctx.violation("TemporaryResourcesManager: " + (b2 or bad), {"kind": "manager", "scenario": small if b2 else sc}, True)
     if dis and not bad_cases:
         # look for a failing input with the end-state oracle near the disagreeing scenarios
         found = None
@@ -736,7 +743,7 @@ def run_manager_stage(ctx, quick):
         for d in dis[:6]:
             evs = d["scenario"]["events"]
             for cut in range(1, len(evs) + 1):
-                extra.append({"events": evs[:cut], "end": "kill"})
+                extra.append(dict(d["scenario"], events=evs[:cut], end="kill"))
         extra += [gen_manager(ctx.rng) for _ in range(60)]
         for sc, r in zip(extra, run_impl_cases(ctx, extra, script="c20_manager.py", workers=min(14, common.NCPU))):
             b, inc = judge_manager(sc, r)
@@ -959,7 +966,8 @@ def run(ctx):
     sg_stats = run_signal_stage(ctx)
 
     # Parallel + numpy life-cycle (sampled; python3-vt)
-    modes = ["normal", "kill", "kill", "kill-werror"] if quick else ["normal"] * 3 + ["kill"] * 6 + ["kill-werror"]
+    modes = (["normal", "kill", "kill-rel", "kill-werror"] if quick
+             else ["normal"] * 3 + ["kill"] * 4 + ["kill-rel"] * 3 + ["kill-werror"])
     with cf.ThreadPoolExecutor(min(6, len(modes))) as ex:
         nres = list(ex.map(lambda m: run_np(ctx, m), modes))
     np_inconclusive, np_ok = 0, 0
